@@ -20,8 +20,9 @@ def one(seed):
         if r.returncode != 0:
             return {"seed": seed, "error": "patch does not apply at HEAD: " + r.stderr[-200:]}
         env = dict(os.environ, VERIF_REPO=wt)
-        r = subprocess.run([sys.executable, os.path.join(HERE, "tools", "cert_sweep.py"), "ALL",
-                            "plain,full,wide,hints,hard,deep,lazycon,soft,softx,softloop,reuse,snapshot,async,asynchard", n, "0"], env=env, capture_output=True, text=True)
+        fams = os.environ.get("SEED_FAMILIES", "plain,full,wide,hints,hard,deep,lazycon,soft,softx,softloop,reuse,snapshot,async,asynchard")
+        r = subprocess.run([sys.executable, os.path.join(HERE, "tools", "cert_sweep.py"), "ALL", fams, n,
+                            os.environ.get("VERIF_SEED", "0")], env=env, capture_output=True, text=True)
         viol = [l for l in r.stdout.split("\n") if l.startswith("VIOL")]
         props = sorted(set(l.split()[1] for l in viol))
         caught = [l for l in r.stdout.split("\n") if l.startswith("CAUGHT_BY_CHECKS")]
